@@ -99,12 +99,14 @@ BackKind(doc) == CASE doc.kind = "null" -> "null"
                    [] doc.kind \in {"many", "idents"} -> "many"
                    [] doc.kind = "errors" -> "errors"
 
+SameBag(a, b) == /\ Len(a) = Len(b)
+                 /\ \A x \in AsSet(a) \cup AsSet(b) : Cardinality({i \in 1..Len(a) : a[i] = x}) = Cardinality({i \in 1..Len(b) : b[i] = x})
 ResBack(doc, res, b, full) ==
     /\ b.type = res.type /\ b.id = res.id
     /\ full => /\ \A f \in ExpAttrs(doc, res) : b.vals[f] = res.vals[f]
                /\ \A f \in ExpRels(doc, res) \cap Data(doc, res.type) :
                      IF ToOne(res.type, f) THEN b.vals[f].ids = res.vals[f].ids
-                     ELSE AsSet(b.vals[f].ids) = AsSet(res.vals[f].ids)
+                     ELSE SameBag(b.vals[f].ids, res.vals[f].ids)   \* the same ids, each as many times (in any order)
 
 \* C02 speaks of resources of the schema's types: a document with a wider member is not judged
 HasWider(doc) == \E i \in 1..Len(doc.primary) : doc.primary[i].extra
@@ -121,6 +123,18 @@ RoundTrip(doc, back) ==
           /\ \A i \in 1..Len(doc.included) : \E j \in 1..Len(back.included) :
                 ResBack(doc, doc.included[i], back.included[j], TRUE)
     /\ back.meta_same
+
+-----------------------------------------------------------------------------
+(* A soft type "td" in which an attribute and a relationship carry the same  *)
+(* name: attributes dup, e; relationships dup (to-one), r2 (to-many).  One   *)
+(* marshaled resource, for every selection and every request of data:        *)
+(* e = [sel, reldata, out |-> [attrs, rels, data] (the names present), same] *)
+DupAttrs == {"dup", "e"}
+DupRels  == {"dup", "r2"}
+DupOK(e) ==
+    /\ AsSet(e.out.attrs) = AsSet(e.sel) \cap DupAttrs      \* exactly the selected attributes ...
+    /\ AsSet(e.out.rels)  = AsSet(e.sel) \cap DupRels       \* ... exactly the selected relationships ...
+    /\ AsSet(e.out.data)  = AsSet(e.out.rels) \cap AsSet(e.reldata)   \* ... data iff asked for
 
 -----------------------------------------------------------------------------
 (* C11: determinism and frame                                               *)
